@@ -100,6 +100,15 @@ class C10(Spec):
                     return ("lost", "request #%d (queue %d, sent %d, delay %d) never arrived (observed until %d)" % (i, q, t, d, end))
         return None
 
+    def extra(self, ctx):
+        """count the lines the monitor did not judge: `ok unchecked …` (an exploration / search limit of the driver was
+        reached — such a line is never rejected, only the oracle judged it) and `ok oracle-only` (stress lines)"""
+        ex = ctx.get("ex") or {}
+        model = ex.get("model") or []
+        ctx["coverage"]["monitor_unchecked_lines"] = sum(1 for m in model if m.startswith("ok unchecked"))
+        ctx["coverage"]["monitor_oracle_only_lines"] = sum(1 for m in model if m.startswith("ok oracle-only"))
+        ctx["coverage"]["monitor_tie_order_lines"] = sum(1 for m in model if m.startswith("ok tie-order"))
+
     def nontrivial(self, script, impl):
         try:
             _, queues, reqs = parse(script)
